@@ -103,10 +103,13 @@ def _head(t):
 
 
 def _unit(unit):
-    ty, k, si, split = unit
+    ty, k, si, split = unit[:4]
+    stripe = unit[4] if len(unit) > 4 else None
     acc = Acc()
     en = enum()
     for i, term in enumerate(en.apply(en.sigs[si], k, only_split=split)):
+        if stripe and i % stripe[1] != stripe[0]:
+            continue
         check_term(acc, term, ty)
         if i == 0:
             acc.sample({"text": to_odata(term), "type": ty}, cap=1)
@@ -240,7 +243,7 @@ def run(ctx):
                 for t in en.terms(ty, 0):
                     check_term(ctx, t, ty) if t[0] != "Identifier" else None
                 continue
-            units = [(ty, k, si, split) for si, split in en.work_units(ty, k)]
+            units = [(ty, k, si, split, (j, 4)) for si, split in en.work_units(ty, k) for j in range(4)]
             ctx.pmap(_unit, units)
     ctx.layer("infer_type", k_max=kmax, terms=int(ctx.counts["states"]), builtin_functions=33, exhaustive=True)
     nh = history_layer(ctx, stride=5 if ctx.quick else 1)
